@@ -10,7 +10,7 @@ CFG = {'level': 'exploration',
  'level_note': 'Trusts crypto/sha256 and the literal transcription of RFC 6962 §2.1 / RFC 9162 §2.1.3.2, §2.1.4.2 in ref/refmerkle.',
  'gomaxprocs': 4,
  'nbatch': {'quick': 16, 'thorough': 64},
- 'timeout': {'quick': 150, 'thorough': 3000},
+ 'timeout': {'quick': 400, 'thorough': 3000},
  'hang_replay_s': 60,
  'rule': 'every tree size t<=T and every n; per honest tuple a labelled mutation family; a class is (record|tree, mutation label, whether the RFC '
          '9162 reference accepts). Exact accept/reject equality is demanded, so mutations that leave the tuple valid are decided by the reference.',
